@@ -250,13 +250,36 @@ func (t *Tr) applyContract(ct *Contract, key string, args []ssa.Value, res ssa.V
 		}
 		env.vars[pn[i]] = Val{T: v, Ty: ty}
 	}
-	// variadic tail etc.: ignore extra args
+	// closure call: the callee's free variables denote the captured cells' current contents
+	if c != nil {
+		if mc, ok := c.Value.(*ssa.MakeClosure); ok {
+			fn := mc.Fn.(*ssa.Function)
+			for i, fv := range fn.FreeVars {
+				if i >= len(mc.Bindings) {
+					break
+				}
+				pt, ok := fv.Type().Underlying().(*types.Pointer)
+				if !ok {
+					continue
+				}
+				a := t.addrOfTerm(t.val(mc.Bindings[i]).S, pt.Elem())
+				if a.Kind == aStruct || a.Kind == aArray {
+					env.vars[fv.Name()] = Val{Ty: pt.Elem(), Loc: a}
+				} else {
+					env.vars[fv.Name()] = Val{T: t.load(t.cur, a), Ty: pt.Elem()}
+				}
+			}
+		}
+	}
 	for k, r := range ct.Requires {
-		s, err := env.evalBool(r.E)
+		s, err := env.evalClause(r.E)
 		if err != nil {
 			efail("%s:%d: requires of %s: %v", r.File, r.Line, key, err)
 		}
-		t.check(fmt.Sprintf("call@%s#%d/pre#%d", key, ord, k), s, "precondition "+r.Src+" of "+key, pos)
+		t.checkCl(fmt.Sprintf("call@%s#%d/pre#%d", key, ord, k), s, "precondition "+r.Src+" of "+key, pos)
+	}
+	if t.preOnly {
+		return
 	}
 	cells := t.copyIn(args)
 	// re-evaluate pointer args: env terms are values, unaffected
@@ -317,11 +340,11 @@ func (t *Tr) applyContract(ct *Contract, key string, args []ssa.Value, res ssa.V
 		}
 	}
 	for _, en := range ct.Ensures {
-		s, err := env.evalBool(en.E)
+		s, err := env.evalClause(en.E)
 		if err != nil {
 			efail("%s:%d: ensures of %s: %v", en.File, en.Line, key, err)
 		}
-		t.assume(s)
+		t.assumeCl(s, false)
 	}
 	t.copyOut(args, cells)
 	// function-valued arguments must satisfy the abstract contract the callee expects
@@ -488,7 +511,7 @@ func (t *Tr) havocLocation(m Clause, env *Env, key string) {
 		}
 		i := findField(sty.Underlying().(*types.Struct), x.Sel)
 		if i < 0 {
-			efail("%s:%d: modifies %s: no such field", m.File, m.Line, m.Src)
+			efail("%s:%d: modifies %s: no such field %q in %v", m.File, m.Line, m.Src, x.Sel, sty)
 		}
 		a := t.fieldAddr(sty, i, obj)
 		t.havocAddr(a)
